@@ -452,7 +452,7 @@ PROP = Property(
           "measurement; distinct = shape set x API forms x field count."),
     strategy=strategy,
     run_case=run_case,
-    budgets={"quick": 6000, "thorough": 200000},
+    budgets={"quick": 6000, "thorough": 50000},
     calibrate=calibrate,
     assumptions=[
         "counters <= 2^40 ticks (2^64 ns of CPU time) so float seconds "
